@@ -204,3 +204,771 @@ def fingerprint(part):
         out.append(row)
     out.append([list(part._quarter_times), list(part._quarter_durations)])
     return json.dumps(out, default=str)
+
+
+def dump_variant(u):
+    """Canonical rows of an unfolded part + structural problems found while walking it.
+    row = (oid, cls, start, end|None, attrs, id suffix or 0, refs[(attr, [None | (oid, start)])])"""
+    problems = []
+    registered = {}
+    for tp, o in iter_points_objects(u):
+        registered[id(o)] = o
+    rows = []
+    for tp, o in iter_points_objects(u):
+        if o.start is not tp:
+            problems.append("object %s registered at t=%d has start %r" % (type(o).__name__, tp.t, o.start))
+        refs = []
+        for ai, attr in enumerate(REF_ATTRS):
+            if attr in getattr(o, "_ref_attrs", []) or ("_" + attr) in getattr(o, "_ref_attrs", []):
+                v = getattr(o, attr)
+                tg = [] if v is None else (list(v) if isinstance(v, list) else [v])
+                out = []
+                for t in tg:
+                    if t is None:
+                        out.append(None)
+                    elif id(t) not in registered:
+                        problems.append("%s.%s of the copy at t=%d refers to an object outside the unfolded part (%s)"
+                                        % (type(o).__name__, attr, tp.t, t))
+                        out.append((-9, -9))
+                    else:
+                        out.append((getattr(t, "_pv", -8), t.start.t if t.start is not None else -9))
+                refs.append((ai, out))
+        suffix = 0
+        oidv = getattr(o, "_pv", -8)
+        nid = getattr(o, "id", None)
+        if cls_code(o) in (0, 2) and isinstance(nid, str) and "-" in nid:
+            suffix = int(nid.rsplit("-", 1)[1])
+        rows.append((oidv, cls_code(o), tp.t, None if o.end is None else o.end.t, note_attrs(o), suffix, refs))
+    rows.sort(key=lambda r: (r[2], r[0], r[1], -1 if r[3] is None else r[3], json.dumps(r[6])))
+    return rows, problems
+
+
+def timeline_problems(u):
+    pr = []
+    pts = list(u._points)
+    for i, tp in enumerate(pts):
+        if i and not pts[i - 1].t < tp.t:
+            pr.append("time points not strictly increasing at %d" % tp.t)
+        if tp.prev is not (pts[i - 1] if i else None):
+            pr.append("prev link of point %d wrong" % tp.t)
+        if tp.next is not (pts[i + 1] if i + 1 < len(pts) else None):
+            pr.append("next link of point %d wrong" % tp.t)
+        for d in tp.starting_objects.values():
+            for o in d:
+                if o.start is not tp:
+                    pr.append("starting %s at %d: start is %r" % (type(o).__name__, tp.t, o.start))
+                if o.end is not None and o not in o.end.ending_objects.get(type(o), {}):
+                    pr.append("%s starting at %d not registered at its end" % (type(o).__name__, tp.t))
+                if o.end is not None and u.get_point(o.end.t) is not o.end:
+                    pr.append("%s starting at %d ends at a point outside the part" % (type(o).__name__, tp.t))
+        for d in tp.ending_objects.values():
+            for o in d:
+                if o.end is not tp:
+                    pr.append("ending %s at %d: end is %r" % (type(o).__name__, tp.t, o.end))
+                if o.start is None or o not in o.start.starting_objects.get(type(o), {}):
+                    pr.append("%s ending at %d is not registered at a start point" % (type(o).__name__, tp.t))
+    return pr
+
+
+# ----------------------------------------------------------------------------
+# running the implementation on one spec
+
+POLICIES = [(False, False, True), (False, False, False), (False, True, True), (False, True, False),
+            (True, False, True), (True, False, False)]   # (no_repeats, all_repeats, ignore_leap_info)
+TYPE_CODE = {"default": 0, "leap_start": 1, "leap_end": 2}
+
+
+def sid(s):
+    return -1 if s == "END" else (ord(s) - 65 if len(s) == 1 else -5)
+
+
+def impl_segments(part):
+    return [(sid(s.id), s.start.t, s.end.t, [sid(x) for x in s.to], [sid(x) for x in s.await_to],
+             TYPE_CODE.get(s.type, -1)) for s in part.segments]
+
+
+def impl_paths(part, pol):
+    """Path.path lists (as id lists) or None when get_paths raises / a path is too long."""
+    import partitura.score as S
+    nr, ar, il = pol
+    try:
+        ps = S.get_paths(part, no_repeats=nr, all_repeats=ar, ignore_leap_info=il)
+    except (IndexError, RecursionError, KeyError) as e:
+        return None, None, type(e).__name__
+    out = [[sid(x) for x in p.path] for p in ps]
+    return out, ps, None
+
+
+class Run:
+    pass
+
+
+def run_impl(spec, variant_budget=6, rng=None):
+    """Build the part, run every entry point, collect observations."""
+    import partitura.score as S
+    r = Run()
+    r.spec = spec
+    part = build(spec)
+    r.part = part
+    r.fp0 = fingerprint(part)
+    r.marks = marks_of(part)
+    r.objs = dump_original(part)
+    r.segs = impl_segments(part)
+    r.paths = {}
+    r.pathobjs = {}
+    r.errors = {}
+    for pol in POLICIES:
+        ids, objs, err = impl_paths(part, pol)
+        r.paths[pol] = ids
+        r.pathobjs[pol] = objs
+        if err:
+            r.errors[pol] = err
+    # unfolded parts: (label, path ids, update_ids, part)
+    r.variants = []
+    r.crashes = []
+
+    def call(label, path, upd, f):
+        try:
+            u = f()
+        except Exception as e:  # noqa
+            r.crashes.append((label, "%s: %s" % (type(e).__name__, e)))
+            return
+        r.variants.append((label, path, upd, u))
+
+    for il in (True, False):
+        ps = r.paths[(False, True, il)]
+        if ps:
+            for upd in (True, False):
+                call("unfold_part_maximal(update_ids=%s, ignore_leaps=%s)" % (upd, il), ps[0], upd,
+                     lambda upd=upd, il=il: S.unfold_part_maximal(part, update_ids=upd, ignore_leaps=il))
+    ps = r.paths[(True, False, True)]
+    if ps:
+        call("unfold_part_minimal", ps[0], False, lambda: S.unfold_part_minimal(part))
+    ps = r.paths[(False, False, True)]
+    if ps and len(ps) <= 64:
+        upd = True if rng is None else rng.random() < 0.5
+        try:
+            us = list(S.iter_unfolded_parts(part, update_ids=upd))
+            if len(us) != len(ps):
+                r.crashes.append(("iter_unfolded_parts", "%d parts for %d paths" % (len(us), len(ps))))
+            else:
+                for j, u in enumerate(us):
+                    r.variants.append(("iter_unfolded_parts(update_ids=%s)[%d]" % (upd, j), ps[j], upd, u))
+        except Exception as e:  # noqa
+            r.crashes.append(("iter_unfolded_parts", "%s: %s" % (type(e).__name__, e)))
+        # unfold_part_alignment: an alignment naming exactly the notes of variant j selects a
+        # variant containing all of them with the fewest notes
+        if rng is not None and len(ps) >= 1:
+            j = rng.randrange(len(ps))
+            want = expected_notes(r, ps[j], True)
+            ids = [n[0] for n in want if n[5] != "rest" and n[0] is not None]
+            if ids:
+                ali = [{"label": "match", "score_id": i, "performance_id": "p"} for i in ids]
+                try:
+                    u = S.unfold_part_alignment(part, ali)
+                    r.alignment = (j, u)
+                except Exception as e:  # noqa
+                    r.crashes.append(("unfold_part_alignment", "%s: %s" % (type(e).__name__, e)))
+    r.fp1 = fingerprint(part)
+    return r
+
+
+# ----------------------------------------------------------------------------
+# direct oracle (independent of the Coq model)
+
+
+def seg_table(r):
+    return {s[0]: s for s in r.segs}
+
+
+def visits_of(r, path):
+    """[(start, end, offset)] of a path (ids) using the implementation's segment table."""
+    tab = seg_table(r)
+    out, off = [], 0
+    for i in path:
+        s = tab[i]
+        out.append((s[1], s[2], off))
+        off += s[2] - s[1]
+    return out, off
+
+
+def orig_notes(r):
+    """(id, start, duration, (step, alter, octave) | None, voice, staff, kind) of the original's notes/rests."""
+    import partitura.score as S
+    out = []
+    for n in r.part.iter_all(S.GenericNote, include_subclasses=True):
+        kind = "rest" if isinstance(n, S.Rest) else "note"
+        pitch = None if kind == "rest" else (n.step, n.alter, n.octave)
+        out.append((n.id, n.start.t, n.end.t - n.start.t, pitch, n.voice, n.staff, kind))
+    return out
+
+
+def expected_notes(r, path, upd):
+    """The notes the property statement demands of the unfolding along `path`:
+    (id, start, duration, pitch, voice, kind) per visit of every note of a visited segment."""
+    vis, _ = visits_of(r, path)
+    seen = Counter()
+    out = []
+    for k, (s, e, off) in enumerate(vis):
+        seen[(s, e)] += 1
+        for (nid, st, dur, pitch, voice, staff, kind) in orig_notes(r):
+            if s <= st < e:
+                i2 = nid
+                if upd and kind == "note" and nid is not None:
+                    i2 = "%s-%d" % (nid, seen[(s, e)])
+                out.append((i2, st - s + off, dur, pitch, (voice, staff), kind))
+    return out
+
+
+def got_notes(u):
+    import partitura.score as S
+    out = []
+    for n in u.iter_all(S.GenericNote, include_subclasses=True):
+        kind = "rest" if isinstance(n, S.Rest) else "note"
+        pitch = None if kind == "rest" else (n.step, n.alter, n.octave)
+        end = n.end.t if n.end is not None else None
+        out.append((n.id, n.start.t, None if end is None else end - n.start.t, pitch, (n.voice, n.staff), kind))
+    return out
+
+
+def oracle_variant(r, label, path, upd, u):
+    """Property statement on one unfolded part.  Returns list of (kind, message)."""
+    import partitura.score as S
+    bad = []
+    vis, total = visits_of(r, path)
+    # O1 length
+    if len(u._points) == 0:
+        bad.append(("length", "unfolded part is empty"))
+        return bad
+    if u.first_point.t != 0 or u.last_point.t - u.first_point.t != total:
+        bad.append(("length", "unfolded part spans %d..%d, sum of the visited segments' lengths is %d"
+                    % (u.first_point.t, u.last_point.t, total)))
+    # O1 notes
+    exp = Counter(expected_notes(r, path, upd))
+    got = Counter(got_notes(u))
+    if exp != got:
+        miss = list((exp - got).elements())[:3]
+        extra = list((got - exp).elements())[:3]
+        bad.append(("notes", "notes differ from the per-visit shifted copies: missing %r, unexpected %r" % (miss, extra)))
+    # O2 no navigation objects remain
+    for tp in u._points:
+        for d in (tp.starting_objects, tp.ending_objects):
+            for cls in d:
+                for o in d[cls]:
+                    if type(o).__name__ in NAV_REMOVED:
+                        bad.append(("nav", "%s remains in the unfolded part at t=%d" % (type(o).__name__, tp.t)))
+    # O2 references closed: every reference of a copy is the copy (same visit) of the original's
+    # target when that target was copied in the visit, else None
+    rows, problems = dump_variant(u)
+    for p in problems:
+        bad.append(("refs", p))
+    orig = {row[0]: row for row in r.objs}
+
+    def visit_index(t):
+        for k, (s, e, off) in enumerate(vis):
+            if off <= t < off + (e - s):
+                return k
+        return None
+
+    copied = set()     # (oid, visit)
+    for row in rows:
+        k = visit_index(row[2])
+        if k is not None:
+            copied.add((row[0], k))
+    for row in rows:
+        oidv, cls, st = row[0], row[1], row[2]
+        if oidv not in orig:
+            bad.append(("refs", "object of class code %d at t=%d is not a copy of an original object" % (cls, st)))
+            continue
+        k = visit_index(st)
+        if k is None:
+            continue   # fermata copied at the very end
+        s, e, off = vis[k]
+        o = orig[oidv]
+        if not row[6] and not o[6]:
+            continue
+        if st == off and cls == CLS["Fermata"] and (k > 0):
+            continue   # may be the extra copy of the previous visit (carries no references anyway)
+        want = []
+        for ai, tg in o[6]:
+            w = []
+            for t in tg:
+                trow = orig[t]
+                if (t, k) in copied and s <= trow[2] < e:
+                    w.append((t, trow[2] - s + off))
+                else:
+                    w.append(None)
+            want.append((ai, w))
+        if want != [(a, list(x)) for a, x in row[6]]:
+            bad.append(("refs", "references of the copy of object %d (%s) at t=%d are %r, expected %r (targets as (object, start))"
+                        % (oidv, [n for n, c in CLS.items() if c == cls], st, row[6], want)))
+    # O2 timeline invariant
+    for p in timeline_problems(u):
+        bad.append(("timeline", p))
+    # division changes inside repeated sections keep the notes' quarter duration
+    try:
+        for n in u.iter_all(S.GenericNote, include_subclasses=True):
+            k = visit_index(n.start.t)
+            if k is None:
+                continue
+            s, e, off = vis[k]
+            q0 = int(r.part.quarter_duration_map(n.start.t - off + s))
+            q1 = int(u.quarter_duration_map(n.start.t))
+            if q0 != q1 or n.start.quarter != q0:
+                bad.append(("quarter", "note %s at t=%d has quarter duration %d (time point %r), original %d"
+                            % (n.id, n.start.t, q1, n.start.quarter, q0)))
+                break
+    except Exception as e:  # noqa
+        bad.append(("quarter", "quarter_duration_map failed: %r" % (e,)))
+    return bad[:8]
+
+
+def is_walk(r, path):
+    tab = seg_table(r)
+    if not path or path[0] != 0:
+        return "does not start at the first segment"
+    for a, b in zip(path, path[1:]):
+        if a not in tab or b not in tab[a][3] + tab[a][4]:
+            return "step %s -> %s is not an allowed destination of %s" % (chr(65 + a), chr(65 + b), chr(65 + a))
+    if path[-1] not in tab or -1 not in tab[path[-1]][3] + tab[path[-1]][4]:
+        return "ends at %s where END is not allowed" % chr(65 + path[-1])
+    return None
+
+
+def structure_kind(spec):
+    """none | simple (independent simple repeats only) | volta (non-nested repeats, some with endings, no
+    navigation) | other"""
+    nav = any(spec.get(k) for k in ("dacapo", "dalsegno", "segno", "fine", "coda", "tocoda"))
+    reps = sorted(spec.get("repeats", []))
+    ends = spec.get("endings", [])
+    if not nav and not reps and not ends:
+        return "none"
+    if nav:
+        return "other"
+    if not ends:
+        ok = all(a < b for a, b in reps) and all(reps[i][1] <= reps[i + 1][0] for i in range(len(reps) - 1))
+        return "simple" if ok else "other"
+    return "volta" if spec.get("volta_groups") else "other"
+
+
+def reference_unfolding(spec, maximal):
+    """Measure sequence demanded by the notation for non-nested repeats with or without endings
+    (spec['volta_groups'] = [[body_start, [[ending_start, ending_end, [numbers]], ...]], ...] and simple
+    repeats): maximal = every pass with its matching ending; minimal = once with the last ending."""
+    n = len(spec["measures"])
+    groups = {g[0]: g for g in spec.get("volta_groups", [])}
+    vstarts = {g[0] for g in spec.get("volta_groups", [])}
+    simple = {a: b for a, b in spec.get("repeats", []) if a not in vstarts}
+    seq = []
+    m = 0
+    while m < n:
+        if m in groups:
+            a, endings = groups[m]
+            first_end = endings[0][0]
+            after = endings[-1][1]
+            nums = sorted(x for e in endings for x in e[2])
+            passes = nums if maximal else [nums[-1]]
+            for p in passes:
+                seq += list(range(a, first_end))
+                for (es, ee, en) in endings:
+                    if p in en:
+                        seq += list(range(es, ee))
+            m = after
+        elif m in simple:
+            b = simple[m]
+            seq += list(range(m, b)) * (2 if maximal else 1)
+            m = b
+        else:
+            seq.append(m)
+            m += 1
+    return seq
+
+
+def path_measures(r, path):
+    t0 = r.spec.get("t0", 0)
+    bounds = [t0]
+    for ln in r.spec["measures"]:
+        bounds.append(bounds[-1] + ln)
+    tab = seg_table(r)
+    seq = []
+    for i in path:
+        s, e = tab[i][1], tab[i][2]
+        seq += [k for k in range(len(bounds) - 1) if s <= bounds[k] < e]
+    return seq
+
+
+def oracle_paths(r):
+    bad = []
+    for pol in POLICIES:
+        ps = r.paths[pol]
+        if ps is None:
+            continue
+        for p in ps:
+            w = is_walk(r, p)
+            if w:
+                bad.append(("walk", "get_paths%r returned %s which %s" % (pol, "-".join(chr(65 + i) for i in p), w)))
+    kind = structure_kind(r.spec)
+    allp = r.paths[(False, False, True)]
+    maxp = r.paths[(False, True, True)]
+    minp = r.paths[(True, False, True)]
+    if kind in ("none", "simple", "volta"):
+        for pol in POLICIES:
+            if r.paths[pol] is None:
+                bad.append(("total", "get_paths%r raised %s on a part with plain repeats/endings" % (pol, r.errors.get(pol))))
+        if any(r.paths[pol] is None for pol in POLICIES):
+            return bad
+        for il in (True, False):
+            if len(r.paths[(False, True, il)]) != 1 or len(r.paths[(True, False, il)]) != 1:
+                bad.append(("count", "maximal/minimal policy does not give exactly one path"))
+                return bad
+        want_max = reference_unfolding(r.spec, True)
+        want_min = reference_unfolding(r.spec, False)
+        for il in (True, False):
+            gm = path_measures(r, r.paths[(False, True, il)][0])
+            if gm != want_max:
+                bad.append(("maximal", "maximal unfolding plays measures %r, the notation says %r" % (gm, want_max)))
+            gm = path_measures(r, r.paths[(True, False, il)][0])
+            if gm != want_min:
+                bad.append(("minimal", "minimal unfolding plays measures %r, the notation says %r" % (gm, want_min)))
+    if kind == "none":
+        for pol in POLICIES:
+            if r.paths[pol] != [[0]]:
+                bad.append(("identity", "part without repeat structure has paths %r" % (r.paths[pol],)))
+    if kind == "simple":
+        nrep = len(r.spec.get("repeats", []))
+        for il in (True, False):
+            ps = r.paths[(False, False, il)]
+            if len(ps) != 2 ** nrep or len({tuple(p) for p in ps}) != len(ps):
+                bad.append(("count", "%d independent simple repeats give %d variants (%d distinct), expected %d"
+                            % (nrep, len(ps), len({tuple(p) for p in ps}), 2 ** nrep)))
+    return bad[:8]
+
+
+def oracle(r):
+    """All direct checks of one run; list of (kind, message, extra)."""
+    bad = [(k, m, {}) for k, m in oracle_paths(r)]
+    for label, err in r.crashes:
+        bad.append(("crash", "%s raised %s" % (label, err), {"call": label}))
+    for label, path, upd, u in r.variants:
+        for k, m in oracle_variant(r, label, path, upd, u):
+            bad.append((k, "%s [path %s]: %s" % (label, "-".join(chr(65 + i) for i in path), m),
+                        {"call": label, "path": path}))
+    if hasattr(r, "alignment"):
+        j, u = r.alignment
+        ps = r.paths[(False, False, True)]
+        want = Counter(expected_notes(r, ps[j], True))
+        got = Counter(got_notes(u))
+        # any variant containing all the aligned notes with no more notes than variant j is acceptable
+        ids_w = {n[0] for n in want.elements() if n[5] == "note"}
+        ids_g = {n[0] for n in got.elements() if n[5] == "note"}
+        if not ids_w <= ids_g or sum(1 for n in got.elements() if n[5] == "note") > sum(1 for n in want.elements() if n[5] == "note"):
+            bad.append(("alignment", "unfold_part_alignment for the notes of variant %d returned a part with notes %r..." % (j, sorted(ids_g)[:6]),
+                        {"call": "unfold_part_alignment"}))
+    if r.fp0 != r.fp1:
+        bad.append(("modified", "the original part was modified by path computation / unfolding", {}))
+    return bad
+
+
+# ----------------------------------------------------------------------------
+# generator
+
+
+def gen_structure(rng, kind):
+    """Blocks laid out in measures.  Returns dict with n (measures), block boundaries, repeats, endings,
+    volta_groups, navigation marks."""
+    blocks = []
+    if kind == "none":
+        blocks = [("plain", rng.randint(1, 4))]
+    elif kind == "simple":
+        r = rng.choice([1, 1, 2, 2, 3, 4])
+        for i in range(r):
+            if rng.random() < (0.5 if i else 0.6):
+                blocks.append(("plain", rng.randint(1, 2)))
+            blocks.append(("rep", rng.randint(1, 2)))
+        if rng.random() < 0.6:
+            blocks.append(("plain", rng.randint(1, 2)))
+    else:
+        nb = rng.randint(2, 5)
+        for i in range(nb):
+            x = rng.random()
+            if kind == "volta" and i == 0 or x < 0.25:
+                blocks.append(("volta", rng.randint(1, 2),
+                               rng.choice([[[1], [2]], [[1], [2]], [[1], [2], [3]], [[1, 2], [3]], [[1], [2, 3]], [[1, 2], [3, 4]]])))
+            elif kind == "nested" and i == 0 or x < 0.35:
+                blocks.append(("nested", rng.randint(0, 1), 1, rng.randint(0, 1)))
+            elif x < 0.6:
+                blocks.append(("rep", rng.randint(1, 2)))
+            else:
+                blocks.append(("plain", rng.randint(1, 2)))
+        if kind == "volta":
+            blocks = [b for b in blocks if b[0] != "nested"]
+        rng.shuffle(blocks)
+    st = {"repeats": [], "endings": [], "volta_groups": []}
+    m = 0
+    bb = [0]
+    for b in blocks:
+        if b[0] == "plain":
+            m += b[1]
+        elif b[0] == "rep":
+            st["repeats"].append([m, m + b[1]])
+            m += b[1]
+        elif b[0] == "volta":
+            a = m
+            m += b[1]
+            total = max(x for e in b[2] for x in e)
+            grp = []
+            for nums in b[2]:
+                st["endings"].append([m, m + 1, ",".join(str(x) for x in nums)])
+                grp.append([m, m + 1, list(nums)])
+                if any(x != total for x in nums):
+                    st["repeats"].append([a, m + 1])
+                m += 1
+            st["volta_groups"].append([a, grp])
+        elif b[0] == "nested":
+            a = m
+            pre, inner, post = b[1], b[2], b[3]
+            if pre + post == 0:
+                post = 1
+            two = [[a, a + pre + inner + post], [a + pre, a + pre + inner]]
+            if rng.random() < 0.5:
+                two.reverse()
+            st["repeats"] += two
+            m += pre + inner + post
+        bb.append(m)
+    st["n"] = m
+    st["bb"] = bb
+    return st
+
+
+def add_navigation(rng, st):
+    """D.C. / D.S. with optional Fine or To Coda / Coda at block boundaries (legal arrangements)."""
+    bb, n = st["bb"], st["n"]
+    inner = [b for b in bb if 0 < b < n]
+    jump = rng.choice(["dacapo", "dalsegno"])
+    al = rng.choice(["none", "fine", "fine", "coda", "coda"])
+    if al == "coda" or rng.random() < 0.25:
+        cand = [b for b in inner if b >= 2] or inner
+        if not cand:
+            return
+        jp = rng.choice(cand)
+    else:
+        jp = n
+    lo = 0
+    if jump == "dalsegno":
+        cand = [b for b in bb if b < jp]
+        sg = rng.choice(cand)
+        st["segno"] = [sg]
+        lo = sg
+    st[jump] = [jp]
+    mid = [b for b in bb if lo < b < jp]
+    if al == "fine" and mid:
+        st["fine"] = [rng.choice(mid)]
+    if al == "coda" and mid and jp < n:
+        st["tocoda"] = [rng.choice(mid)]
+        st["coda"] = [rng.choice([b for b in bb if jp <= b < n])]
+
+
+TS_CHOICES = [(4, 4), (3, 4), (2, 4), (6, 8), (2, 2)]
+
+
+def gen_spec(rng, kind=None, rich=True):
+    kind = kind or rng.choices(["none", "simple", "volta", "nested", "nav"], [6, 30, 22, 12, 30])[0]
+    st = gen_structure(rng, "mixed" if kind == "nav" else kind)
+    if kind == "nav":
+        add_navigation(rng, st)
+    n, bb = st["n"], st["bb"]
+    spec = {"kind": kind}
+    for k in ("repeats", "endings", "volta_groups", "dacapo", "dalsegno", "segno", "fine", "coda", "tocoda"):
+        if st.get(k):
+            spec[k] = st[k]
+    qd = rng.choice([2, 4, 4, 12])
+    spec["qd"] = qd
+    ts = rng.choice(TS_CHOICES)
+    spec["ts"] = [[0, ts[0], ts[1]]]
+    spec["ks"] = [[0, rng.randint(-4, 4), rng.choice(["major", "minor"])]] if rng.random() < 0.8 else []
+    spec["clefs"] = [[0, 1, "G", 2]] if rng.random() < 0.8 else []
+    spec["qdchanges"] = []
+    two_staves = rich and rng.random() < 0.3
+    if two_staves and spec["clefs"]:
+        spec["clefs"].append([0, 2, "F", 4])
+    measures = []
+    cur_ts, cur_qd = ts, qd
+    for m in range(n):
+        if m in bb and m > 0 and rich:
+            x = rng.random()
+            if x < 0.12:
+                cur_ts = rng.choice([t for t in TS_CHOICES if t != cur_ts])
+                spec["ts"].append([m, cur_ts[0], cur_ts[1]])
+            elif x < 0.3:
+                spec["ts"].append([m, cur_ts[0], cur_ts[1]])      # restated, unchanged
+            x = rng.random()
+            if x < 0.1:
+                spec["ks"].append([m, rng.randint(-4, 4), "major"])
+            elif x < 0.25 and spec["ks"]:
+                spec["ks"].append([m, spec["ks"][-1][1], spec["ks"][-1][2]])   # restated
+            if rng.random() < 0.12 and spec["clefs"]:
+                c = rng.choice(spec["clefs"])
+                spec["clefs"].append([m, c[1], c[2], c[3]] if rng.random() < 0.6 else [m, c[1], "C", 3])
+            if rng.random() < 0.1:
+                cur_qd = cur_qd * rng.choice([2, 3]) if cur_qd < 24 else qd
+                spec["qdchanges"].append([m, cur_qd])
+        measures.append(cur_ts[0] * cur_qd * 4 // cur_ts[1])
+    spec["measures"] = measures
+    if rng.random() < 0.08:
+        spec["t0"] = measures[0]
+    notes, ties, graces, slurs, tuplets = [], [], [], [], []
+    v1 = []          # voice-1 note ids in order, with measure
+    ni = 0
+    for m, L in enumerate(measures):
+        k = rng.choice([k for k in (1, 1, 2, 2, 3, 4) if L % k == 0])
+        d = L // k
+        for j in range(k):
+            x = rng.random() if rich else 0.0
+            if x < 0.1:
+                notes.append(["r%d" % ni, "rest", m, j * d, d, 0, 1, 1])
+                ni += 1
+                continue
+            nid = "n%d" % ni
+            ni += 1
+            if rich and rng.random() < 0.12:
+                g = "n%d" % ni
+                ni += 1
+                notes.append([g, "grace", m, j * d, 0, rng.randint(0, 80), 1, 1])
+                if rng.random() < 0.3:
+                    g2 = "n%d" % ni
+                    ni += 1
+                    notes.append([g2, "grace", m, j * d, 0, rng.randint(0, 80), 1, 1])
+                    graces.append([g, g2])
+                    g = g2
+                graces.append([g, nid])
+            notes.append([nid, "note", m, j * d, d, rng.randint(0, 80), 1, 1])
+            v1.append((nid, m))
+            if x > 0.9:
+                notes.append(["n%d" % ni, "note", m, j * d, d, rng.randint(0, 80), 1, 1])
+                ni += 1
+        if two_staves and rng.random() < 0.7:
+            notes.append(["n%d" % ni, "note", m, 0, L, rng.randint(0, 80), 2, 2])
+            ni += 1
+    if rich:
+        for i in range(len(v1) - 1):
+            x = rng.random()
+            if v1[i][1] != v1[i + 1][1] and x < 0.35 or x < 0.05:
+                ties.append([v1[i][0], v1[i + 1][0]])      # mostly across bar lines = segment boundaries
+        for _ in range(rng.choice([0, 0, 1, 1, 2, 3])):
+            if len(v1) >= 2:
+                i = rng.randrange(len(v1) - 1)
+                j = min(len(v1) - 1, i + rng.randint(1, 5))
+                slurs.append([v1[i][0], v1[j][0]])
+        for _ in range(rng.choice([0, 0, 0, 1, 2])):
+            cand = [i for i in range(len(v1) - 1) if v1[i][1] == v1[i + 1][1]]
+            if cand:
+                i = rng.choice(cand)
+                tuplets.append([v1[i][0], v1[i + 1][0]])
+        if rng.random() < 0.35:
+            spec["fermatas"] = [[rng.choice(bb), rng.choice([None, "right", "left"])] for _ in range(rng.randint(1, 2))]
+        if rng.random() < 0.25:
+            spec["words"] = [[rng.choice(bb), "dolce"]]
+        if rng.random() < 0.25:
+            spec["pages"] = sorted({0, rng.choice(bb[:-1])})
+        if rng.random() < 0.25:
+            spec["barlines"] = [n]
+    spec.update({"notes": notes, "ties": ties, "graces": graces, "slurs": slurs, "tuplets": tuplets})
+    return spec
+
+
+def small_scope_specs():
+    """Thorough tier: every structure over 5 one-note measures built from <= 2 repeats (any intervals, nested,
+    overlapping excluded), one two-ending volta group, and the D.C./D.S. x Fine/Coda arrangements whose segment
+    count is <= 5 (filtered after building)."""
+    n = 5
+    ivs = [(a, b) for a in range(n) for b in range(a + 1, n + 1)]
+    rep_sets = [[]] + [[list(i)] for i in ivs]
+    for i, j in itertools.combinations(ivs, 2):
+        if i[1] <= j[0] or j[1] <= i[0] or (i[0] <= j[0] and j[1] <= i[1]) or (j[0] <= i[0] and i[1] <= j[1]):
+            rep_sets.append([list(i), list(j)])
+    voltas = []
+    for a in range(n):
+        for b in range(a + 1, n):          # first ending [b, b+1), second [b+1, b+2)
+            if b + 2 <= n:
+                voltas.append({"repeats": [[a, b + 1]], "endings": [[b, b + 1, "1"], [b + 1, b + 2, "2"]],
+                               "volta_groups": [[a, [[b, b + 1, [1]], [b + 1, b + 2, [2]]]]]})
+    navs = [{}]
+    for jp in range(2, n + 1):
+        navs.append({"dacapo": [jp]})
+        for f in range(1, jp):
+            navs.append({"dacapo": [jp], "fine": [f]})
+            if jp < n:
+                navs.append({"dacapo": [jp], "tocoda": [f], "coda": [jp]})
+        for sg in range(0, jp):
+            navs.append({"segno": [sg], "dalsegno": [jp]})
+            for f in range(sg + 1, jp):
+                navs.append({"segno": [sg], "dalsegno": [jp], "fine": [f]})
+                if jp < n:
+                    navs.append({"segno": [sg], "dalsegno": [jp], "tocoda": [f], "coda": [jp]})
+    base = {"qd": 1, "measures": [4] * n, "ts": [[0, 4, 4]],
+            "notes": [["n%d" % m, "note", m, 0, 4, 30 + m, 1, 1] for m in range(n)],
+            "ties": [["n%d" % m, "n%d" % (m + 1)] for m in range(n - 1)]}
+    for nav in navs:
+        for reps in rep_sets:
+            s = dict(base)
+            s.update(nav)
+            if reps:
+                s["repeats"] = reps
+            s["kind"] = "small"
+            yield s
+        for v in voltas:
+            s = dict(base)
+            s.update(nav)
+            s.update(v)
+            s["kind"] = "small"
+            yield s
+
+
+# ----------------------------------------------------------------------------
+# Coq terms
+
+
+def czl(l):
+    return clist([cz(x) for x in l])
+
+
+def c_marks(m):
+    return "(mkMarks %s %s %s %s %s %s %s %s %s %s)" % (
+        cz(m["first"]), cz(m["last"]),
+        clist([ctuple([cz(a), cz(b)]) for a, b in m["repeats"]]),
+        clist([ctuple([cz(a), cz(b), czl(ns)]) for a, b, ns in m["endings"]]),
+        czl(m["coda"]), czl(m["tocoda"]), czl(m["dacapo"]), czl(m["fine"]), czl(m["segno"]), czl(m["dalsegno"]))
+
+
+def c_obj(row):
+    oidv, cls, st, en, sig, attrs, refs = row
+    return "(mkObj %s %s %s %s %s %s %s)" % (
+        cz(oidv), cz(cls), cz(st), copt(en, cz), cz(sig), ctuple([cz(a) for a in attrs]),
+        clist([ctuple([cz(a), czl(t)]) for a, t in refs]))
+
+
+def c_seg(s):
+    return "(mkSeg %s %s %s %s %s %s)" % (cz(s[0]), cz(s[1]), cz(s[2]), czl(s[3]), czl(s[4]), cz(s[5]))
+
+
+def c_paths(pol, ps):
+    body = "None" if ps is None else "(Some %s)" % clist([czl(p) for p in ps])
+    return ctuple([cbool(pol[0]), cbool(pol[1]), cbool(pol[2]), body])
+
+
+def c_row(row):
+    oidv, cls, st, en, attrs, suffix, refs = row
+    return ctuple([cz(oidv), cz(cls), cz(st), copt(en, cz), ctuple([cz(a) for a in attrs]), cz(suffix),
+                   clist([ctuple([cz(a), clist([copt(t, lambda t: ctuple([cz(t[0]), cz(t[1])])) for t in tg])])
+                          for a, tg in refs])])
+
+
+def c_case(r, variants):
+    vs = []
+    for label, path, upd, u in variants:
+        rows, _ = dump_variant(u)
+        rows = [x for x in rows if x[1] != CLS["Clef"]]
+        vs.append("(mkV %s %s %s)" % (czl(path), cbool(upd), clist([c_row(x) for x in rows])))
+    return "(mkC %s %s %s %s %s)" % (
+        c_marks(r.marks), clist([c_obj(o) for o in r.objs]), clist([c_seg(s) for s in r.segs]),
+        clist([c_paths(pol, r.paths[pol]) for pol in POLICIES]), clist(vs))
